@@ -6,10 +6,10 @@ from lib import symx
 LEVEL = 'other'
 MANIFEST = {'category': 'other', 'engine': 'symx+sre2smt+z3',
  'technique': 'symbolic/exhaustive exploration of the real error-handling structure: parse_all with nondeterministically failing decoder and sink (symx choose); regular-language inclusion (z3) of everything the line regexes hand to int()/float(); exhaustive enumeration of all matcher / command texts up to 3 (quick) / 4 (thorough) symbols of the matcher alphabet; evaluation and printing of accepted matchers on hostile argument values',
- 'text': 'Partial by nature (totality over all byte strings is not solver-sized). Decided: (1) with the line decoder and the connection sink failing in every possible pattern (return / RuntimeError / any other exception) on <= 3 lines, nothing escapes parse.into_sink, every line is read and every opened connection is closed once; (2) for lines of ANY length that either regex matches, every text handed to int() or float() lies inside that builtin\'s accepted language (so decoding a matched line cannot raise ValueError); (3) every matcher of C05\'s expression family can be evaluated on, and printed next to, messages whose arguments take hostile values (inf, nan, huge and negative integers, empty and non-ASCII strings, missing types / names / incarnations, unresolved objects); (4) every string of <= 3/4 symbols over the matcher alphabet (incl. non-ASCII and ESC) is either parsed or rejected with RuntimeError by matcher.parse, and given as any command to Controller.process_command produces output or an error line and raises nothing. Log side: the real argument splitter (argument_list_strs / end_of_str) on ARBITRARY argument texts of <= 8 (11) symbolic characters terminates and loses no character (a path that does not end is reported and confirmed by a replay that does not end). Sequences of <= 3 (4) hostile but well-matched message lines (enormous time stamps and ids, ill-typed special messages, duplicates) through the real line loop: consumed to the end, connections closed, commands still answer.',
- 'note': 'Outside the claim: byte decoding of the input (open()/stdin/pipe text layer is C code; an undecodable byte does escape readline() - recorded as an observation in DESIGN.md), texts longer than the bound, KeyboardInterrupt/EOF at the prompt.'}
+ 'text': 'Partial by nature (totality over all byte strings is not solver-sized). Decided: (1) with the line decoder and the connection sink failing in every possible pattern (return / RuntimeError / any other exception) on <= 3 lines, nothing escapes parse.into_sink, every line is read and every opened connection is closed once; (2) for lines of ANY length that either regex matches, every text handed to int() or float() lies inside that builtin\'s accepted language (so decoding a matched line cannot raise ValueError); (3) every matcher of C05\'s expression family can be evaluated on, and printed next to, messages whose arguments take hostile values (inf, nan, huge and negative integers, empty and non-ASCII strings, missing types / names / incarnations, unresolved objects); (4) every string of <= 3/4 symbols over the matcher alphabet (incl. non-ASCII and ESC) is either parsed or rejected with RuntimeError by matcher.parse, and given as any command to Controller.process_command produces output or an error line and raises nothing. Log side: the real argument splitter (argument_list_strs / end_of_str) on ARBITRARY argument texts of <= 8 (11) symbolic characters terminates and loses no character (a path that does not end is reported and confirmed by a replay that does not end). Sequences of <= 3 (4) hostile but well-matched message lines (enormous time stamps and ids, ill-typed special messages, duplicates) through the real line loop: consumed to the end, connections closed, commands still answer. Logs of <= 3 (4) lines with bytes that are not valid UTF-8 through the real main() in file, pipe and run mode: nothing escapes, the log is consumed, connections are closed, the neighbouring lines are shown.',
+ 'note': 'Outside the claim: the C text layer itself (modelled by a stub with io.TextIOWrapper\'s documented error-policy contract: what the repository decides - how each stream is opened or configured and what surrounds readline() - is executed for real through main()), texts longer than the bound, KeyboardInterrupt/EOF at the prompt.'}
 EXPLANATION = MANIFEST['text']
-ASSUMPTIONS = ['readline() itself does not raise (text layer outside the claim)', 'int()/float() accept exactly the documented literal syntax incl. Unicode digits']
+ASSUMPTIONS = ['a text stream behaves as io.TextIOWrapper documents for its error policy (strict raises UnicodeDecodeError, replace/ignore/surrogateescape/backslashreplace substitute)', 'int()/float() accept exactly the documented literal syntax incl. Unicode digits']
 FUNCS = ['backends.libwayland_debug_output.parse:Parser.parse_all', 'backends.libwayland_debug_output.parse:Parser.cleanup', 'backends.libwayland_debug_output.parse:into_sink',
          'backends.libwayland_debug_output.parse:message', 'backends.libwayland_debug_output.parse:argument', 'core.matcher:parse', 'frontends.tui.controller:Controller.process_command',
          'core.matcher:IntArgValueMatcher.matches', 'core.matcher:MessagePattern.matches', 'core.matcher:MatcherList.__str__', 'core.matcher:MessagePattern.__str__']
@@ -271,6 +271,244 @@ def hostile_lines(ctx, case):
         ctx.check('afterwards `%s` answers' % cmd, len(out.items) + len(err.items) > n0)
 
 
+BAD = ''      # stands for one byte that is not valid in the stream's encoding
+BYTE_LINES = [
+    '[1000.100]  -> wl_display@1.get_registry(new id wl_registry@2)',
+    '[1000.200] {Default Queue} <B> wl_display#1.get_registry(new id wl_registry#2)',
+    'chatter ' + BAD + BAD + ' of the program',
+    '[1000.300]  -> wl_display@1.sync(new id wl_callback@3)' + BAD,
+    '[1000.400] wl_registry@2.global(1, "wl_' + BAD + 'compositor", 4)',
+    BAD,
+]
+
+
+class ByteTextIO:
+    """a text stream over bytes, some of which cannot be decoded: the contract of io.TextIOWrapper with the error policy the stream was opened with
+    (strict -> readline raises UnicodeDecodeError - here as late as possible, at the offending line itself; replace / ignore / surrogateescape /
+    backslashreplace -> the documented substitution)"""
+    SUBST = {'replace': '�', 'ignore': '', 'surrogateescape': '\udcff', 'backslashreplace': '\\xff'}
+
+    def __init__(self, text, errors=None, encoding=None, log=None):
+        self.rest = text
+        self.errors = errors or 'strict'
+        self.encoding = encoding or 'utf-8'
+        self.closed = False
+        self.log = log if log is not None else []
+
+    def reconfigure(self, *, encoding=None, errors=None, newline=None, line_buffering=None, write_through=None):
+        if errors is not None:
+            self.errors = errors
+        if encoding is not None:
+            self.encoding = encoding
+
+    def readline(self, size=-1):
+        i = self.rest.find(chr(10))
+        line, self.rest = (self.rest[:i + 1], self.rest[i + 1:]) if i >= 0 else (self.rest, '')
+        if BAD in line:
+            if self.encoding.lower().replace('-', '').replace('_', '') in ('latin1', 'iso88591', 'cp437'):
+                return line.replace(BAD, '\xff')      # every byte is a character in these
+            if self.errors == 'strict':
+                raise UnicodeDecodeError('utf-8', b'\xff', 0, 1, 'invalid start byte')
+            if self.errors not in self.SUBST:
+                raise LookupError('unknown error handler name %r' % self.errors)
+            return line.replace(BAD, self.SUBST[self.errors])
+        return line
+
+    def read(self, size=-1):
+        out = ''
+        while True:
+            l = self.readline()
+            if l == '':
+                return out
+            out += l
+
+    def readlines(self, hint=-1):
+        return list(self)
+
+    def __iter__(self):
+        return self
+
+    def __next__(self):
+        l = self.readline()
+        if l == '':
+            raise StopIteration
+        return l
+
+    def readable(self):
+        return True
+
+    def seekable(self):
+        return False
+
+    def isatty(self):
+        return False
+
+    def fileno(self):
+        return 1001
+
+    def close(self):
+        self.closed = True
+
+    def __enter__(self):
+        return self
+
+    def __exit__(self, *a):
+        self.close()
+
+
+def undecodable_bytes(ctx, case):
+    """a log with bytes that are not valid UTF-8, in file, pipe and run mode, through the real main(): consumed to the end, every opened connection
+    reported closed, nothing escapes. The text layer (C code) is a stub with io.TextIOWrapper's documented contract; what the repository decides - how
+    each stream is opened / configured, what happens around readline() - is executed for real."""
+    import logging, importlib
+    logging.disable(logging.CRITICAL)
+    from core import wl, matcher, util
+    from frontends.tui.arguments import Arguments, Mode
+    from core.output import Output
+    from lib.stubs import RecStream
+    n, mode = case
+    util.color_output = False
+    wl.Message.base_time = None
+    main = importlib.import_module('main')
+    runner = importlib.import_module('backends.libwayland_debug_output.runner')
+    lines = [ctx.choose(BYTE_LINES, 'line%d' % k) for k in range(n)]
+    last_nl = ctx.choose([True, False], 'last_newline')
+    text = ''.join(l + chr(10) for l in lines)
+    if not last_nl:
+        text = text[:-1]
+    ctx.assume(BAD in text)
+    stdin_errors = ctx.choose(['strict', 'surrogateescape'], 'stdin_error_policy_of_the_locale') if mode == 'pipe' else 'strict'
+    out, err = RecStream(), RecStream()
+    output = Output(False, True, out, err)
+    prompts = []
+    streams = []
+
+    def input_func(p):
+        prompts.append(len(out.items))
+        return 'quit'
+
+    def fake_open(path, mode='r', buffering=-1, encoding=None, errors=None, newline=None, closefd=True, opener=None):
+        if 'b' in mode:
+            raise symx.Unsupported('the log is opened in binary mode: the text-layer stub does not model that')
+        streams.append(ByteTextIO(text, errors, encoding))
+        return streams[-1]
+
+    saved = (main.protocol.load_all, runner.subprocess, runner.os, runner.threading, main.__dict__.get('open'), main.sys)
+    main.protocol.load_all = lambda o: None
+    escaped = None
+    code = None
+    try:
+        try:
+            if mode == 'file':
+                main.open = fake_open
+                main.main(Arguments(False, False, True, Mode.LOAD_FROM_FILE, 'some.log', matcher.always, matcher.never, None, ['main.py'], []), output, input_func)
+            elif mode == 'pipe':
+                class S:
+                    stdin = ByteTextIO(text, stdin_errors)
+                    version_info = saved[5].version_info
+                    stdout = saved[5].stdout
+                    stderr = saved[5].stderr
+                streams.append(S.stdin)
+                main.sys = S
+                main.main(Arguments(False, False, True, Mode.PIPE, '', matcher.always, matcher.never, None, ['main.py'], []), output, input_func)
+            else:
+                st = {'target': None, 'ran': False}
+
+                class FakeCompleted:
+                    returncode = 3
+
+                class FakePopen:
+                    def __init__(self, args, **kw):
+                        self.returncode = None
+
+                    def wait(self, timeout=None):
+                        self.returncode = 3
+                        return 3
+
+                    def poll(self):
+                        return self.returncode
+
+                    def __enter__(self):
+                        return self
+
+                    def __exit__(self, *a):
+                        self.wait()
+
+                class FakeSubprocessModule:
+                    Popen = FakePopen
+                    PIPE, STDOUT, DEVNULL = -1, -2, -3
+
+                    @staticmethod
+                    def run(args, **kw):
+                        return FakeCompleted()
+
+                class FakeOs:
+                    environ = {'PATH': '/bin'}
+                    path = saved[2].path
+
+                    @staticmethod
+                    def pipe():
+                        return (1001, 1002)
+
+                    @staticmethod
+                    def fdopen(fd, mode='r', buffering=-1, encoding=None, errors=None, newline=None, closefd=True, opener=None):
+                        if 'b' in mode:
+                            raise symx.Unsupported('the pipe is opened in binary mode: the text-layer stub does not model that')
+                        streams.append(ByteTextIO(text, errors, encoding))
+                        return streams[-1]
+
+                    @staticmethod
+                    def close(fd):
+                        pass
+
+                class FakeThread:
+                    # the program writes everything and exits before the parent reads (one of C13's schedules; the schedule is not the subject here)
+                    def __init__(self, name=None, target=None, **kw):
+                        st['target'] = target
+
+                    def start(self):
+                        st['target']()
+                        st['ran'] = True
+
+                    def join(self, timeout=None):
+                        pass
+
+                    def is_alive(self):
+                        return not st['ran']
+
+                class FakeThreading:
+                    Thread = FakeThread
+                runner.subprocess, runner.os, runner.threading = FakeSubprocessModule, FakeOs, FakeThreading
+                try:
+                    main.main(Arguments(False, False, True, Mode.RUN, '', matcher.always, matcher.never, None, ['main.py'], ['prog']), output, input_func)
+                except SystemExit as e:
+                    code = e.code
+        except Exception as e:
+            escaped = e
+            if not isinstance(e, (UnicodeError, LookupError)):
+                raise
+    finally:
+        main.sys = saved[5]
+        if saved[4] is None:
+            main.__dict__.pop('open', None)
+        else:
+            main.open = saved[4]
+        main.protocol.load_all = saved[0]
+        runner.subprocess, runner.os, runner.threading = saved[1], saved[2], saved[3]
+    if escaped is not None:
+        ctx.note('escaped', repr(escaped))
+    ctx.check('undecodable bytes in the log do not abort the program (%s mode)' % mode, escaped is None)
+    ctx.check('the log is consumed to the end', len(streams) == 1 and streams[0].rest == '')
+    news = [x for x in out.items if x.startswith('New ')]
+    ctx.check('every connection that was opened is reported closed', len([x for x in out.items if x.startswith('Closed ')]) == len(news))
+    nmsg = len([l for l in lines if l.startswith('[')])
+    ctx.check('the lines around the bad bytes are still shown (one item per line)', len([x for x in out.items if not x.startswith(('New ', 'Closed '))]) == n)
+    if mode == 'file':
+        ctx.check('file mode still prompts afterwards', len(prompts) == 1)
+    if mode == 'run':
+        ctx.check('run mode still exits with the program\'s status', code == 3)
+
+
 def short_texts(ctx, case):
     """all strings of <= n symbols: matcher.parse accepts or raises RuntimeError; every command built from them answers"""
     import logging
@@ -331,6 +569,11 @@ def obligations(tier):
            'every text of <= %d characters, each any of 32..126' % (8 if tier == 'quick' else 11), argument_texts, cases=list(range(0, 9 if tier == 'quick' else 12))),
         Ob('hostile-lines', 'symx', 'sequences of hostile but well-matched message lines (enormous numbers, ill-typed special messages, duplicates) through the real line loop, manager and controller', FUNCS[:3],
            'all sequences of <= %d lines from a pool of %d' % (3 if tier == 'quick' else 4, len(HOSTILE_LINES)), hostile_lines, cases=[1, 2, 3] if tier == 'quick' else [1, 2, 3, 4]),
+        Ob('undecodable-bytes', 'symx', 'a log containing bytes that are not valid UTF-8 through the real main() in file, pipe and run mode', ['main:main', 'main:file_input_main', 'main:piped_input_main', 'backends.libwayland_debug_output.runner:run_program'] + FUNCS[:3],
+           'all sequences of <= %d lines from a pool of %d (4 of them with undecodable bytes: in chatter, at the end of a message line, inside a string argument, alone), last line with/without newline, 3 modes, stdin policy strict / surrogateescape' % (3 if tier == 'quick' else 4, len(BYTE_LINES)),
+           undecodable_bytes, cases=[(k, m) for k in ([1, 2, 3] if tier == 'quick' else [1, 2, 3, 4]) for m in ('file', 'pipe', 'run')],
+           stubs=['open() / sys.stdin in main.py, os.fdopen / subprocess / threading in runner.py: text streams with io.TextIOWrapper\'s documented error-policy contract (strict raises UnicodeDecodeError at the offending line)', 'protocol.load_all stubbed'],
+           outside='the C text layer itself; a strict stream really raises at the 8 KiB chunk containing the byte, i.e. possibly earlier than modelled'),
         Ob('literal-inclusion', 'smt', 'regex groups handed to int()/float() are inside the builtins\' languages (any length)', FUNCS[3:5], 'strings of any length', literal_inclusion, cases=[None], replay=replay_literal),
         Ob('hostile-evaluation', 'symx', 'matchers of the C05 family evaluate and print on hostile argument values', FUNCS[7:], 'every %d-th of %d expressions x 15 hostile argument kinds x 3 targets' % (step, n_expr),
            hostile_evaluation, cases=list(range(0, n_expr, step))),
